@@ -169,3 +169,12 @@ ASSUMPTIONS = [
 ]
 NOT_COVERED = []
 REPLAY = {"ReplayBuffer.": "c02_buffers", "LAP.": "c02_buffers", "PrioritizedReplayBuffer.": "c02_buffers"}
+
+# ---- multi-task wrapper (modular: per-task buffers are contract stubs, see contracts/multitask.py)
+from . import multitask as _MTM  # noqa: E402
+from .multitask import TASKS_C02 as _MT  # noqa: E402
+
+TASKS = TASKS + _MT
+ASSUMPTIONS = ASSUMPTIONS + _MTM.ASSUMPTIONS
+NOT_COVERED = NOT_COVERED + _MTM.NOT_COVERED
+REPLAY = dict(REPLAY, **_MTM.REPLAY_C02)
